@@ -189,6 +189,10 @@ type runResult struct {
 }
 
 func runPeriod(path []POp, verbose bool) runResult {
+	return stable(fmt.Sprint(path), verbose, func(v bool) runResult { return runPeriodOnce(path, v) })
+}
+
+func runPeriodOnce(path []POp, verbose bool) runResult {
 	if len(path) == 0 {
 		return runResult{key: "root"}
 	}
@@ -212,7 +216,9 @@ func runPeriod(path []POp, verbose bool) runResult {
 		var class, msg string
 		switch o.K {
 		case "take":
-			code, err := lim.Take(o.Key)
+			var code int
+			var err error
+			e.counted(func() { code, err = lim.Take(o.Key) })
 			if faulty {
 				situation = "take-under-fault"
 				if err == nil || code != limit.Unknown {
